@@ -7,6 +7,12 @@
 //! Remove entries pushed by `leave_joint` (pushed in hash order of
 //! `voters.outgoing`) are sorted by id.  The wire format is described in
 //! coq/Run/RunConfChange.v.
+//!
+//! Modes: `exhaustive`, `restore`, `random` generate case/impl shards and print
+//! `cases=N`; `monitor --cases f1,f2,..` re-runs case lines on the real code and
+//! checks property C12 with an independent set-algebra oracle (see the monitor
+//! section): prints `MONITOR-OK cases=N`, or `FAIL confchange <shrunk case>` and
+//! `REASON <kind>: <text>`.
 use crate::util::*;
 use raft::eraftpb::{
     ConfChange, ConfChangeSingle, ConfChangeTransition, ConfChangeType, ConfChangeV2, ConfState,
@@ -493,8 +499,401 @@ fn random_case(rng: &mut Rng, len: usize, ids: u64, sh: &mut Shard) {
     sh.put(COMP, &input, &out);
 }
 
+// ------------------------------------------------------------------- monitor
+//
+// `--mode monitor --cases f1,f2,...` re-runs every case line on the REAL code
+// and checks property C12 itself with a plain-Rust set-algebra oracle
+// (BTreeSet based; shares nothing with the Coq model or with `step`/`dump_*`
+// above except the wire decoding of the case line):
+//   * after boot (Raft::new) and after every successful change: voters∩learners=∅,
+//     learners_next⊆outgoing, learners_next∩learners=∅, >=1 voter, progress for
+//     exactly the members;
+//   * simple: |incoming Δ incoming'| <= 1 and non-joint before and after;
+//   * enter_joint: non-joint before, outgoing' = old incoming, auto_leave' = requested;
+//   * leave_joint: joint before, outgoing' = ∅, learners' = learners ∪ learners_next,
+//     learners_next' = ∅, auto_leave' = false, incoming unchanged;
+//   * a rejected change leaves configuration and progress untouched;
+//   * restore(to_conf_state(cfg)) through Raft::new reproduces cfg and its progress
+//     ids for every reached cfg with a voter; a ConfState that is valid by the
+//     set-algebra definition must be restored exactly;
+//   * quorum overlap: for every subset q of the voter universe, q deciding the
+//     configuration before and (universe \ q) deciding the one after is a failure
+//     (deciding is monotone, so this is "some two deciding quorums are disjoint");
+//   * the ConfChangeV2 classification table and the dispatch of apply_conf_change.
+// The reachability premise: a case stops being checked at a Forget op (it builds
+// a tracker no sequence of changes can reach).  The bootstrap (voterless) tracker
+// is exempt from ">=1 voter", round trip and overlap, as in the theorems.
+use std::collections::BTreeSet;
+
+type Set = BTreeSet<u64>;
+
+#[derive(Clone, Debug, PartialEq, Eq)]
+struct Obs { inc: Set, out: Set, lrn: Set, nxt: Set, auto: bool, prs: Set }
+
+fn observe(t: &ProgressTracker) -> Obs {
+    let cs = t.conf().to_conf_state();
+    let set = |v: &[u64]| -> Set { v.iter().cloned().collect() };
+    Obs {
+        inc: set(cs.get_voters()), out: set(cs.get_voters_outgoing()),
+        lrn: set(cs.get_learners()), nxt: set(cs.get_learners_next()),
+        auto: cs.auto_leave, prs: t.iter().map(|(id, _)| *id).collect(),
+    }
+}
+
+struct Fail { kind: &'static str, msg: String }
+fn fail<T>(kind: &'static str, msg: String) -> Result<T, Fail> { Err(Fail { kind, msg }) }
+
+impl Obs {
+    fn members(&self) -> Set {
+        let mut m = self.inc.clone();
+        m.extend(&self.out); m.extend(&self.lrn); m.extend(&self.nxt);
+        m
+    }
+    fn joint(&self) -> bool { !self.out.is_empty() }
+    /// the invariants of the property; `what` names the producer
+    fn invariants(&self, what: &str) -> Result<(), Fail> {
+        if let Some(x) = self.inc.intersection(&self.lrn).next() { return fail("voter-learner-overlap", format!("{}: {} is an incoming voter and a learner in {:?}", what, x, self)); }
+        if let Some(x) = self.out.intersection(&self.lrn).next() { return fail("voter-learner-overlap", format!("{}: {} is an outgoing voter and a learner in {:?}", what, x, self)); }
+        if let Some(x) = self.nxt.difference(&self.out).next() { return fail("staged-learner-not-outgoing", format!("{}: staged learner {} is not an outgoing voter in {:?}", what, x, self)); }
+        if let Some(x) = self.nxt.intersection(&self.lrn).next() { return fail("staged-learner-is-learner", format!("{}: {} is in learners_next and learners in {:?}", what, x, self)); }
+        if self.inc.is_empty() { return fail("no-voter", format!("{}: configuration without a voter {:?}", what, self)); }
+        if self.prs != self.members() { return fail("progress-members-mismatch", format!("{}: progress ids {:?} but members {:?}", what, self.prs, self.members())); }
+        Ok(())
+    }
+    /// JointConfig::vote_result == Won when exactly the ids of q vote yes
+    fn decides(&self, q: &Set) -> bool {
+        let maj = |v: &Set| v.is_empty() || v.intersection(q).count() >= v.len() / 2 + 1;
+        maj(&self.inc) && maj(&self.out)
+    }
+}
+
+/// every deciding quorum of `a` meets every deciding quorum of `b`
+fn overlap(a: &Obs, b: &Obs, what: &str) -> Result<(), Fail> {
+    let mut u: Vec<u64> = a.inc.union(&a.out).cloned().collect::<Set>().union(&b.inc.union(&b.out).cloned().collect()).cloned().collect();
+    u.sort_unstable();
+    if u.len() > 16 { return Ok(()); }
+    for m in 0u32..(1u32 << u.len()) {
+        let q1: Set = u.iter().enumerate().filter(|(i, _)| m >> i & 1 == 1).map(|(_, x)| *x).collect();
+        if !a.decides(&q1) { continue; }
+        let q2: Set = u.iter().enumerate().filter(|(i, _)| m >> i & 1 == 0).map(|(_, x)| *x).collect();
+        if b.decides(&q2) {
+            return fail("quorum-overlap", format!("{}: {:?} decides the configuration before ({:?}&&{:?}) and the disjoint {:?} decides the one after ({:?}&&{:?})", what, q1, a.inc, a.out, q2, b.inc, b.out));
+        }
+    }
+    Ok(())
+}
+
+/// restore(to_conf_state(cfg)) through Raft::new reproduces cfg
+fn roundtrip(t: &ProgressTracker, a: &Obs, what: &str) -> Result<(), Fail> {
+    if a.inc.is_empty() { return Ok(()); }
+    let cs = t.conf().to_conf_state();
+    match raft_new(&cs) {
+        Ok(Ok(r)) => {
+            let b = observe(r.prs());
+            if b != *a { return fail("restore-roundtrip", format!("{}: restoring {:?} gives {:?} instead of {:?}", what, cs, b, a)); }
+            Ok(())
+        }
+        Ok(Err(c)) => fail("restore-roundtrip", format!("{}: restoring the ConfState {:?} of a reached configuration is rejected (error {})", what, cs, c)),
+        Err(s) => fail("restore-roundtrip", format!("{}: restoring the ConfState {:?} of a reached configuration panics (site {})", what, cs, s)),
+    }
+}
+
+/// validity of a ConfState by the set-algebra definition (independent of the code)
+fn cs_valid(c: &Cs) -> bool {
+    let set = |v: &Vec<u64>| -> Set { v.iter().cloned().collect() };
+    let (v, l, o, n) = (set(&c.v), set(&c.l), set(&c.o), set(&c.ln));
+    !v.is_empty() && !v.contains(&0) && !l.contains(&0) && !o.contains(&0) && !n.contains(&0)
+        && v.is_disjoint(&l) && o.is_disjoint(&l) && n.is_subset(&o) && n.is_disjoint(&l) && n.is_disjoint(&v)
+        && (!o.is_empty() || (n.is_empty() && !c.auto))
+}
+
+#[derive(Clone, Copy, PartialEq, Eq, Debug)]
+enum Kind { Simple, Enter(bool), Leave }
+
+/// the decision table of ConfChangeV2::{leave_joint, enter_joint}
+fn table(tr: u64, nchanges: usize) -> (bool, Option<bool>, Kind) {
+    let leave = tr == 0 && nchanges == 0;
+    let enter = match tr { 0 => if nchanges > 1 { Some(true) } else { None }, 1 => Some(true), _ => Some(false) };
+    let kind = if leave { Kind::Leave } else if let Some(a) = enter { Kind::Enter(a) } else { Kind::Simple };
+    (leave, enter, kind)
+}
+
+enum Outcome { Done, Rejected(String), Panicked(String) }
+
+/// shape of a successful change a -> b of the given kind
+fn check_change(kind: Kind, a: &Obs, b: &Obs, what: &str) -> Result<(), Fail> {
+    b.invariants(what)?;
+    match kind {
+        Kind::Simple => {
+            if a.joint() || b.joint() { return fail("simple-in-joint", format!("{}: simple change accepted with outgoing voters {:?} -> {:?}", what, a.out, b.out)); }
+            let d = a.inc.symmetric_difference(&b.inc).count();
+            if d > 1 { return fail("simple-delta", format!("{}: simple change alters {} voters: {:?} -> {:?}", what, d, a.inc, b.inc)); }
+        }
+        Kind::Enter(auto) => {
+            if a.joint() { return fail("enter-joint-shape", format!("{}: enter_joint accepted in the joint configuration {:?}", what, a)); }
+            if a.inc.is_empty() { return fail("enter-joint-shape", format!("{}: enter_joint accepted without voters", what)); }
+            if b.out != a.inc { return fail("enter-joint-shape", format!("{}: outgoing' = {:?} but the old incoming voters are {:?}", what, b.out, a.inc)); }
+            if b.auto != auto { return fail("enter-joint-shape", format!("{}: auto_leave' = {} but {} was requested", what, b.auto, auto)); }
+        }
+        Kind::Leave => {
+            if !a.joint() { return fail("leave-joint-shape", format!("{}: leave_joint accepted in the non-joint configuration {:?}", what, a)); }
+            let promoted: Set = a.lrn.union(&a.nxt).cloned().collect();
+            if !b.out.is_empty() || !b.nxt.is_empty() || b.auto || b.lrn != promoted || b.inc != a.inc {
+                return fail("leave-joint-shape", format!("{}: {:?} -> {:?}; expected incoming {:?}, no outgoing, learners {:?}, no learners_next, auto_leave false", what, a, b, a.inc, promoted));
+            }
+        }
+    }
+    if !a.inc.is_empty() { overlap(a, b, what)?; }
+    Ok(())
+}
+
+/// test-only fault injection on the OBSERVATION (never on the real objects), to
+/// exercise the FAIL path: 1 = a voter also reported as learner, 2 = a progress id dropped
+fn inject_obs(b: &mut Obs, inject: u64) {
+    match inject {
+        1 => { if b.inc.len() >= 2 { let x = *b.inc.iter().next().unwrap(); b.lrn.insert(x); } }
+        2 => { if b.prs.len() >= 3 { let x = *b.prs.iter().next_back().unwrap(); b.prs.remove(&x); } }
+        _ => {}
+    }
+}
+
+/// Runs one case on the real code against the oracle.
+fn monitor_case(b: &Option<Cs>, ops: &[Op], inject: u64) -> Result<(), Fail> {
+    let mut t = match b {
+        None => ProgressTracker::new(16),
+        Some(cs) => match raft_new(&cs.to_pb()) {
+            Ok(Ok(r)) => {
+                let mut o = observe(r.prs());
+                inject_obs(&mut o, inject);
+                let set = |v: &Vec<u64>| -> Set { v.iter().cloned().collect() };
+                if o.inc.is_empty() && o.members().is_empty() && o.prs.is_empty() {
+                    // the empty ConfState restores the bootstrap tracker
+                } else {
+                    o.invariants("Raft::new")?;
+                    if o.inc != set(&cs.v) || o.out != set(&cs.o) || o.lrn != set(&cs.l) || o.nxt != set(&cs.ln) || o.auto != cs.auto {
+                        return fail("restore-roundtrip", format!("Raft::new accepted {:?} but restored {:?}", cs, o));
+                    }
+                }
+                r.prs().clone()
+            }
+            Ok(Err(c)) => { if cs_valid(cs) { return fail("restore-roundtrip", format!("valid ConfState {:?} rejected by restore (error {})", cs, c)); } return Ok(()); }
+            Err(s) => { if cs_valid(cs) { return fail("restore-roundtrip", format!("valid ConfState {:?} makes Raft::new panic (site {})", cs, s)); } return Ok(()); }
+        },
+    };
+    roundtrip(&t, &observe(&t), "after boot")?;
+    for (k, op) in ops.iter().enumerate() {
+        let a = observe(&t);
+        let what = format!("op {} {:?}", k, op);
+        // run the real code; `after` is what the real objects hold afterwards
+        let (kind, outcome, after): (Kind, Outcome, Obs) = match op {
+            Op::Forget(_) => return Ok(()),
+            Op::Roundtrip => { roundtrip(&t, &a, &what)?; continue; }
+            Op::Simple(_) | Op::Enter(..) | Op::Leave => {
+                let kind = match op { Op::Simple(_) => Kind::Simple, Op::Enter(au, _) => Kind::Enter(*au), _ => Kind::Leave };
+                let r = catch(|| match op {
+                    Op::Simple(c) => Changer::new(&t).simple(&pb_ccs(c)),
+                    Op::Enter(au, c) => Changer::new(&t).enter_joint(*au, &pb_ccs(c)),
+                    _ => Changer::new(&t).leave_joint(),
+                });
+                match r {
+                    Ok(Ok((cfg, chs))) => { t.apply_conf(cfg, chs, 1); (kind, Outcome::Done, observe(&t)) }
+                    Ok(Err(e)) => (kind, Outcome::Rejected(e.to_string()), observe(&t)),
+                    Err(m) => (kind, Outcome::Panicked(m), observe(&t)),
+                }
+            }
+            Op::V2(..) | Op::V1(..) => {
+                let (cc, tr, n) = match op {
+                    Op::V2(tr, c) => {
+                        let mut cc = ConfChangeV2::default();
+                        cc.set_transition(match tr { 0 => ConfChangeTransition::Auto, 1 => ConfChangeTransition::Implicit, _ => ConfChangeTransition::Explicit });
+                        cc.set_changes(pb_ccs(c).into());
+                        (cc, *tr, c.len())
+                    }
+                    Op::V1(ty, id) => {
+                        let mut c1 = ConfChange::default();
+                        c1.set_change_type(cc_type(*ty));
+                        c1.node_id = *id;
+                        (c1.as_v2().into_owned(), 0, 1)
+                    }
+                    _ => unreachable!(),
+                };
+                let (leave, enter, kind) = table(tr, n);
+                if cc.leave_joint() != leave || cc.enter_joint() != enter {
+                    return fail("classification", format!("{}: leave_joint()={} enter_joint()={:?} but the table says {} / {:?}", what, cc.leave_joint(), cc.enter_joint(), leave, enter));
+                }
+                let mut r = base_raft();
+                *r.mut_prs() = t.clone();
+                match catch(|| r.apply_conf_change(&cc)) {
+                    Ok(Ok(cs)) => {
+                        let o = observe(r.prs());
+                        let set = |v: &[u64]| -> Set { v.iter().cloned().collect() };
+                        if set(cs.get_voters()) != o.inc || set(cs.get_voters_outgoing()) != o.out || set(cs.get_learners()) != o.lrn || set(cs.get_learners_next()) != o.nxt || cs.auto_leave != o.auto {
+                            return fail("returned-conf-state", format!("{}: apply_conf_change returned {:?} but the tracker holds {:?}", what, cs, o));
+                        }
+                        t = r.prs().clone();
+                        (kind, Outcome::Done, o)
+                    }
+                    Ok(Err(e)) => (kind, Outcome::Rejected(e.to_string()), observe(r.prs())),
+                    Err(m) => (kind, Outcome::Panicked(m), observe(r.prs())),
+                }
+            }
+        };
+        match outcome {
+            Outcome::Panicked(m) => return fail("panic", format!("{}: {}", what, m)),
+            Outcome::Rejected(e) => {
+                if after != a { return fail("rejected-change-mutated", format!("{}: rejected ({}) but {:?} became {:?}", what, e, a, after)); }
+            }
+            Outcome::Done => {
+                let mut bobs = after;
+                inject_obs(&mut bobs, inject);
+                check_change(kind, &a, &bobs, &what)?;
+                roundtrip(&t, &observe(&t), &what)?;
+            }
+        }
+    }
+    Ok(())
+}
+
+// ---- decoding of a case line (inverse of Cs::enc / Op::enc)
+
+fn take_list(v: &[u64], i: &mut usize) -> Option<Vec<u64>> {
+    let n = *v.get(*i)? as usize;
+    *i += 1;
+    if *i + n > v.len() { return None; }
+    let r = v[*i..*i + n].to_vec();
+    *i += n;
+    Some(r)
+}
+
+fn take_ccs(v: &[u64], i: &mut usize) -> Option<Vec<Cc>> {
+    let n = *v.get(*i)? as usize;
+    *i += 1;
+    let mut r = vec![];
+    for _ in 0..n {
+        let ty = *v.get(*i)?;
+        let id = *v.get(*i + 1)?;
+        if ty > 2 { return None; }
+        *i += 2;
+        r.push((ty, id));
+    }
+    Some(r)
+}
+
+fn decode_case(line: &str) -> Option<(Option<Cs>, Vec<Op>)> {
+    let mut toks = line.split_whitespace();
+    if toks.next()? != COMP { return None; }
+    let v: Vec<u64> = toks.map(|x| x.parse().ok()).collect::<Option<Vec<u64>>>()?;
+    let mut i = 0usize;
+    let b = match *v.get(i)? {
+        0 => { i += 1; None }
+        1 => {
+            i += 1;
+            let vv = take_list(&v, &mut i)?;
+            let l = take_list(&v, &mut i)?;
+            let o = take_list(&v, &mut i)?;
+            let ln = take_list(&v, &mut i)?;
+            let auto = *v.get(i)? != 0;
+            i += 1;
+            Some(Cs { v: vv, l, o, ln, auto })
+        }
+        _ => return None,
+    };
+    let mut ops = vec![];
+    while i < v.len() {
+        let code = v[i];
+        i += 1;
+        let op = match code {
+            1 => Op::Simple(take_ccs(&v, &mut i)?),
+            2 => { let a = *v.get(i)? != 0; i += 1; Op::Enter(a, take_ccs(&v, &mut i)?) }
+            3 => Op::Leave,
+            4 => Op::Roundtrip,
+            5 => { let id = *v.get(i)?; i += 1; Op::Forget(id) }
+            6 => { let tr = *v.get(i)?; if tr > 2 { return None; } i += 1; Op::V2(tr, take_ccs(&v, &mut i)?) }
+            7 => { let ty = *v.get(i)?; let id = *v.get(i + 1)?; if ty > 2 { return None; } i += 2; Op::V1(ty, id) }
+            _ => return None,
+        };
+        ops.push(op);
+    }
+    Some((b, ops))
+}
+
+fn case_line(b: &Option<Cs>, ops: &[Op]) -> String {
+    let mut input = vec![];
+    match b { None => input.push(0), Some(cs) => { input.push(1); cs.enc(&mut input) } }
+    for o in ops { o.enc(&mut input); }
+    format!("{} {}", COMP, input.iter().map(|x| x.to_string()).collect::<Vec<_>>().join(" "))
+}
+
+/// Greedy shrinking: shortest failing prefix, then drop single ops, single
+/// changes inside an op, single ids of the boot ConfState, while it still fails.
+fn shrink(b: &Option<Cs>, ops: &[Op], inject: u64) -> (Option<Cs>, Vec<Op>) {
+    let fails = |b: &Option<Cs>, ops: &[Op]| monitor_case(b, ops, inject).is_err();
+    let mut ops: Vec<Op> = ops.to_vec();
+    let mut b = b.clone();
+    for k in 0..=ops.len() { if fails(&b, &ops[..k]) { ops.truncate(k); break; } }
+    loop {
+        let mut cands: Vec<(Option<Cs>, Vec<Op>)> = vec![];
+        for k in 0..ops.len() { let mut x = ops.clone(); x.remove(k); cands.push((b.clone(), x)); }
+        for k in 0..ops.len() {
+            let n = match &ops[k] { Op::Simple(c) | Op::Enter(_, c) | Op::V2(_, c) => c.len(), _ => 0 };
+            for j in 0..n {
+                let mut x = ops.clone();
+                match &mut x[k] { Op::Simple(c) | Op::Enter(_, c) | Op::V2(_, c) => { c.remove(j); } _ => {} }
+                cands.push((b.clone(), x));
+            }
+        }
+        if let Some(cs) = &b {
+            for f in 0..4 {
+                let n = [cs.v.len(), cs.l.len(), cs.o.len(), cs.ln.len()][f];
+                for j in 0..n {
+                    let mut c2 = cs.clone();
+                    match f { 0 => { c2.v.remove(j); } 1 => { c2.l.remove(j); } 2 => { c2.o.remove(j); } _ => { c2.ln.remove(j); } }
+                    cands.push((Some(c2), ops.clone()));
+                }
+            }
+        }
+        match cands.into_iter().find(|(b2, o2)| fails(b2, o2)) {
+            Some((b2, o2)) => { b = b2; ops = o2; }
+            None => return (b, ops),
+        }
+    }
+}
+
+/// the overlap oracle itself: must reject a two-voter jump, accept a one-voter step
+fn overlap_selftest() {
+    let o = |inc: &[u64], out: &[u64]| Obs { inc: inc.iter().cloned().collect(), out: out.iter().cloned().collect(), lrn: Set::new(), nxt: Set::new(), auto: false, prs: Set::new() };
+    assert!(overlap(&o(&[1, 2, 3], &[]), &o(&[1, 2, 3, 4], &[]), "selftest").is_ok());
+    assert!(overlap(&o(&[1, 2, 3], &[]), &o(&[4, 5], &[1, 2, 3]), "selftest").is_ok());
+    assert!(overlap(&o(&[1, 2, 3], &[]), &o(&[1, 2, 3, 4, 5], &[]), "selftest").is_err());
+    assert!(overlap(&o(&[1, 2], &[]), &o(&[3], &[]), "selftest").is_err());
+}
+
+fn monitor(args: &[String]) {
+    overlap_selftest();
+    let files = arg(args, "--cases", "");
+    let inject: u64 = arg(args, "--inject", "0").parse().unwrap_or(0);
+    let mut n = 0u64;
+    for f in files.split(',').filter(|x| !x.is_empty()) {
+        let text = std::fs::read_to_string(f).unwrap();
+        for line in text.lines() {
+            if let Some((b, ops)) = decode_case(line) {
+                n += 1;
+                if monitor_case(&b, &ops, inject).is_err() {
+                    let (b2, ops2) = shrink(&b, &ops, inject);
+                    let f = match monitor_case(&b2, &ops2, inject) { Err(f) => f, Ok(()) => unreachable!() };
+                    println!("FAIL {}", case_line(&b2, &ops2));
+                    println!("REASON {}: {}", f.kind, f.msg);
+                    return;
+                }
+            }
+        }
+    }
+    println!("MONITOR-OK cases={}", n);
+}
+
 pub fn main(args: &[String]) {
     let mode = arg(args, "--mode", "exhaustive");
+    if mode == "monitor" { return monitor(args); }
     let dir = arg(args, "--out", "/verif/build/run");
     let nsh: usize = arg(args, "--shards", "16").parse().unwrap();
     let seed: u64 = arg(args, "--seed", "1").parse().unwrap();
